@@ -207,6 +207,34 @@ def gen_scenario(seed, family="mixed"):
 def gen_reusable(seed, family="reuse"):
     """histories of get_reusable_executor calls (resizes, replacements) interleaved with submissions"""
     rnd = random.Random(f"scen/{family}/{seed}")
+    if family == "reusecb":
+        # a done-callback asks for the singleton with another size: the request runs in the manager thread.  Growing
+        # the pool with nothing else in flight must work; what waits for something only the manager thread can
+        # deliver (other jobs, departing workers) is the listed finding D26
+        mw = rnd.choice([1, 2])
+        nt = rnd.choice([1, 1, 1, 2, 3])
+        tasks = [{"body": rnd.choice(["ok", "ok", "raise"])} for _ in range(nt)]
+        k = rnd.randrange(nt)
+        tasks[k]["cb"] = "resize"
+        tasks[k]["cb_mw"] = rnd.choice([mw + 1, mw + 1, mw + 2, mw, max(1, mw - 1)])
+        u0 = [["reusable", {"max_workers": mw, "timeout": None}]] + [["submit", i] for i in range(nt)]
+        if rnd.random() < 0.3:
+            u0.append(["reusable", {"max_workers": rnd.choice([1, 2, 3]), "timeout": None}])
+        return {"kind": "reusable", "max_workers": 2, "timeout": None, "cpu_count": 2, "tasks": tasks, "family": family,
+                "users": [u0], "sched": {"p_timeout": 0.0, "p_crash": 0.0, "max_crashes": 0}}
+    if family == "reusecancel":
+        # more queued tasks than the call queue holds (cpu_count 1: three slots), the last ones cancelled while still
+        # PENDING (they stay in the table until the manager reaches them), then a resize that waits for the jobs while
+        # a worker may die
+        mw = rnd.choice([1, 1, 2])
+        nt = rnd.randint(5, 6)
+        tasks = [{"body": "ok"} for _ in range(nt)]
+        u0 = [["reusable", {"max_workers": mw, "timeout": None}]] + [["submit", i] for i in range(nt)]
+        for i in range(nt - rnd.choice([1, 2]), nt):
+            u0.append(["cancel", i])
+        u0.append(["reusable", {"max_workers": rnd.choice([m for m in (1, 2, 3) if m != mw]), "timeout": None}])
+        return {"kind": "reusable", "max_workers": 2, "timeout": None, "cpu_count": 1, "tasks": tasks, "family": family,
+                "users": [u0], "sched": {"p_timeout": 0.0, "p_crash": rnd.choice([0.01, 0.03, 0.06]), "max_crashes": 1}}
     nt = rnd.randint(1, 2) if family == "reusegrow" else rnd.randint(1, 6)
     use_timeout = rnd.random() < 0.6
     scen = {"kind": "reusable", "max_workers": 2, "timeout": 5 if use_timeout else None, "cpu_count": 2,
@@ -218,7 +246,7 @@ def gen_reusable(seed, family="reuse"):
     if grow:
         use_timeout = False
         scen["timeout"] = None
-    def call(first=False):
+    def call(first=False, after_dead=False):
         a = {"max_workers": rnd.choice([4, 5, 6, 2] if big else [1, 2, 3, 4]), "timeout": 5 if use_timeout else None}
         if grow:
             a["max_workers"] = rnd.choice([1, 2]) if first else rnd.choice([3, 4, 5])
@@ -230,8 +258,18 @@ def gen_reusable(seed, family="reuse"):
                 a["reuse"] = False
             if rnd.random() < 0.15:
                 a["kill_workers"] = True
-            if rnd.random() < 0.1:
+            if rnd.random() < 0.12:
                 a["newinit"] = True
+            if use_timeout and rnd.random() < 0.1:
+                a["timeout"] = 7            # another finite idle time-out: the arguments have changed
+            # reuse=True together with changed arguments: only a dead previous instance is replaced, and the fresh
+            # one must be built from the arguments of THIS call
+            if rnd.random() < (0.4 if after_dead else 0.1 if family == "reusecrash" else 0.04):
+                a["reuse"] = True
+                if rnd.random() < 0.7:
+                    a["newinit"] = True
+                elif use_timeout:
+                    a["timeout"] = 7
         return ["reusable", a]
     users = []
     nu = 1 if grow else rnd.choice([1, 1, 2])
@@ -242,12 +280,14 @@ def gen_reusable(seed, family="reuse"):
         mine = ids[u::nu]
         for k in mine:
             sc.append(["submit", k])
+            if rnd.random() < 0.12:
+                sc.append(["cancel", k])     # a cancelled item may still sit in the table when a resize waits for the jobs
             if rnd.random() < 0.45:
                 sc.append(call())
         if rnd.random() < (0.7 if big else 0.2):
             # an explicit shutdown of the singleton - waited for or not - then the next request must replace it
             sc.append(["shutdown", rnd.random() < 0.6, rnd.random() < 0.3])
-            sc.append(call())
+            sc.append(call(after_dead=True))
         users.append(sc)
     scen["users"] = users
     scen["sched"] = {"p_timeout": (rnd.choice([0.02, 0.1, 0.3]) if use_timeout else 0.0),
